@@ -325,7 +325,16 @@ pub enum Event {
     ArmTraceFault { at: u64, repeat: u32 },
     /// `root_set` is the id given to the hidden Gc object of the root's DynamicRootSet
     /// (`root_set + 1` to the shared object of its ZstCache)
-    NewArena { a: Aid, root_set: Id, ops: Vec<Op>, p: PacingSpec, fail: CtorFail },
+    NewArena {
+        a: Aid,
+        root_set: Id,
+        ops: Vec<Op>,
+        p: PacingSpec,
+        fail: CtorFail,
+        /// a root with no DynamicRootSet and no ZstCache: the arena can become completely empty
+        #[serde(default)]
+        bare: bool,
+    },
     DropArena { a: Aid },
 }
 
